@@ -18,7 +18,7 @@ from taskiq import TaskiqDepends, TaskiqMiddleware
 from taskiq.abc.broker import AsyncBroker
 from taskiq.abc.result_backend import AsyncResultBackend
 from taskiq.acks import AckableMessage, AcknowledgeType
-from taskiq.exceptions import NoResultError, SendTaskError
+from taskiq.exceptions import BrokerError, NoResultError, SendTaskError, UnknownTaskError
 from taskiq.formatters.proxy_formatter import ProxyFormatter
 from taskiq.kicker import AsyncKicker
 from taskiq.labels import prepare_label
@@ -32,6 +32,10 @@ class CustomError(RuntimeError):
     pass
 
 
+class QueueDown(BrokerError):
+    """a broker-specific error that is a BrokerError but not a SendTaskError"""
+
+
 # exception class table shared with harness/props (identifier -> class)
 EXC = {0: NoResultError, 1: TimeoutError, 2: LookupError, 3: ValueError, 4: CustomError, 5: KeyboardInterrupt,
        6: SystemExit, 7: asyncio.CancelledError, 8: GeneratorExit}
@@ -40,6 +44,7 @@ HOOKS_MSG = ("pre_send", "pre_execute")
 HOOKS_ALL = ("pre_send", "post_send", "pre_execute", "on_error", "post_execute", "post_save")
 
 LOG = []
+_CLI = {}
 CUR = {}     # per-case state used by the module-level shims
 
 
@@ -163,8 +168,15 @@ class ScriptedBroker(AsyncBroker):
         p = CUR["plan"].get(w, {})
         log(w, "kick", message.task_id, canon(message.labels))
         await susp(p.get("kick_susp"))
-        if p.get("kick") == "kick_fail":
+        k = p.get("kick")
+        if k == "kick_fail":
             raise ConnectionError("cannot send")
+        if k == "kick_fail_broker":
+            raise BrokerError()
+        if k == "kick_fail_sub":
+            raise QueueDown()
+        if k == "kick_fail_send":
+            raise UnknownTaskError(task_name="t")
 
     async def listen(self):
         return
@@ -519,9 +531,15 @@ def run_recv(case):
                 make_task(broker, i, M, loop)
         at = case.get("ack_type")
         ex = _ScriptedExecutor(case["executor"]) if case.get("executor") else None
-        recv = Receiver(broker, executor=ex, max_async_tasks=None, run_startup=False,
-                        propagate_exceptions=case["propagate"],
-                        ack_type=AcknowledgeType(at) if at else None)
+        if case.get("cli") is not None:
+            # configuration through the real command-line path (harness/cli_glue.py), computed before the loop ran
+            kw = dict(_CLI["kw"])
+            kw["max_async_tasks"] = None
+            recv = Receiver(broker, executor=ex, run_startup=False, **kw)
+        else:
+            recv = Receiver(broker, executor=ex, max_async_tasks=None, run_startup=False,
+                            propagate_exceptions=case["propagate"],
+                            ack_type=AcknowledgeType(at) if at else None)
 
         async def one(i, M):
             await susp(M.get("arrive"))
@@ -554,6 +572,12 @@ def run_recv(case):
         await loop.drain_threads()
         return list(LOG), loop.time_us()     # snapshot before the loop is torn down
 
+    cli_kw = None
+    if case.get("cli") is not None:
+        import cli_glue
+        from taskiq import InMemoryBroker
+        cli_kw = cli_glue.receiver_kwargs_via_cli(case["cli"], InMemoryBroker())
+    _CLI["kw"] = cli_kw
     lg, end = run_on_loop(main)
     return {"log": lg, "end_us": end}
 
